@@ -76,5 +76,10 @@ func ValidatePeerPubKeyFormat(pubkey string) error {
 	if !vrf.ValidatePublicKey(pk) {
 		return fmt.Errorf("invalid for VRF")
 	}
+	// pool, black-list and index records are keyed by this string resp. by its decoded bytes: accept only the canonical
+	// encoding (lower-case hex of keypair.SerializePublicKey), else one public key can occupy several pool entries
+	if vbftconfig.PubkeyID(pk) != pubkey {
+		return fmt.Errorf("pubkey is not in canonical encoding")
+	}
 	return nil
 }
